@@ -16,6 +16,7 @@ mod c13;
 mod c14;
 mod c15;
 mod c16;
+mod c18;
 mod c19;
 mod valref;
 mod strsweep;
@@ -63,6 +64,7 @@ fn main() {
                 "C15" => c15::run(tier),
                 "C16" => c16::run(c16::Which::C16, tier),
                 "C17" => c16::run(c16::Which::C17, tier),
+                "C18" => c18::run(tier),
                 "C19" => c19::run(tier),
                 _ => {
                     eprintln!("unknown property {id}");
@@ -93,6 +95,7 @@ fn main() {
                 "c04" => c04::replay(case),
                 "c05" => c05::replay(case),
                 "c09" => c09::replay(case),
+                "c18" => c18::replay(case),
                 "val-tree" => c16::replay_tree(case),
                 "val-op" => c16::replay_op(case),
                 "c06-text" => c06::replay_text(case),
